@@ -13,24 +13,20 @@ def asOut : LoopOut σ → Int → Option (Out σ)
   | .done u .failed k, c => some ⟨u, false, k, c⟩
   | _, _ => none
 
-/-- The hypotheses under which the two loops are compared at one period. -/
-structure FiniteRegime (W : Wrapped σ V) (t : Int) (index : Nat) (Inv : σ → Prop) : Prop where
-  /-- the period has passed the range and lag/lead checks, so `evaluate` runs the equations and returns 0 -/
-  eval_ok : ∀ u, evaluate W.toEngine u index = (W.body u index, 0)
-  /-- `index` is the 1-based column of Python's `t` -/
-  index_eq : index = (normT W.ncols t + 1).toNat
-  /-- the rows the compiled loop reads are the variables Python checks -/
-  aligned : ∀ u, W.check u index = W.pyCheck u index
-  /-- a set of states closed under one pass on which every value involved is finite -/
+/-- The finite regime at one period: a set of states closed under one evaluation pass on which every check value and
+    every endogenous value of the period is finite ("values stay finite"). -/
+structure FiniteRegime (W : Wrapped σ V) (index : Nat) (Inv : σ → Prop) : Prop where
   closed : ∀ u, Inv u → Inv (W.body u index)
-  check_finite : ∀ u, Inv u → W.allFinite (W.pyCheck u index) = true
+  check_finite : ∀ u, Inv u → W.allFinite (W.check u index) = true
   endo_finite : ∀ u, Inv u → W.endoFinite u index = true
 
 theorem floop_eq_loop (W : Wrapped σ V) (c : Cfg) (o : Opts) (t : Int) (index : Nat) (Inv : σ → Prop)
-    (R : FiniteRegime W t index Inv) (hmin : c.minIter = o.minIter) :
+    (R : FiniteRegime W index Inv) (hmin : c.minIter = o.minIter)
+    (hidx : index = (normT W.ncols t + 1).toNat)
+    (hev : ∀ u, evaluate W u index = (W.body u index, 0)) :
     ∀ (fuel k : Nat) (u : σ) (cur : V) (code : Int), 1 ≤ k → Inv u → W.allFinite cur = true →
       asOut (loop (toInterp W) o t fuel k u cur) (if fuel = 0 then code else 0)
-        = some (floop W.toEngine c index fuel k u cur code) := by
+        = some (floop W c index fuel k u cur code) := by
   intro fuel
   induction fuel with
   | zero =>
@@ -42,28 +38,28 @@ theorem floop_eq_loop (W : Wrapped σ V) (c : Cfg) (o : Opts) (t : Int) (index :
     have hu' := R.closed u hu
     have hfin := R.check_finite _ hu'
     have hendo := R.endo_finite _ hu'
-    have hev := R.eval_ok u
-    have hchk : (toInterp W).check (W.body u index) t = W.pyCheck (W.body u index) index := by
-      simp [toInterp, R.index_eq]
+    have hev' := hev u
+    have hchk : (toInterp W).check (W.body u index) t = W.check (W.body u index) index := by
+      simp [toInterp, hidx]
     have hrec := fun cur' hc' => ih (k + 1) (W.body u index) cur' 0 (by omega) hu' hc'
     have hcode : (if fuel = 0 then (0 : Int) else 0) = 0 := by split <;> rfl
     simp only [hcode] at hrec
     unfold loop floop
-    have he : (toInterp W).eval o u t k = (W.body u index, false) := by simp [toInterp, R.index_eq]
+    have he : (toInterp W).eval o u t k = (W.body u index, false) := by simp [toInterp, hidx]
     rw [he]
-    simp only [hev, ne_eq, not_true_eq_false, if_false, hendo, Bool.true_eq_false, false_and]
+    simp only [hev', ne_eq, not_true_eq_false, if_false, hendo, Bool.true_eq_false, false_and]
     have hal : (toInterp W).allFinite = W.allFinite := rfl
     have hcl : (toInterp W).close = W.close := rfl
-    simp only [hal, hcl, hcur, Bool.true_eq_false, if_false, hchk, hfin, R.aligned, hmin]
+    simp only [hal, hcl, hcur, Bool.true_eq_false, if_false, hchk, hfin, hmin]
     by_cases hm : (k : Int) < o.minIter
     · simp only [hm, if_true]
-      have := hrec (W.pyCheck (W.body u index) index) hfin
+      have := hrec (W.check (W.body u index) index) hfin
       simpa [Nat.succ_ne_zero] using this
     · simp only [hm, if_false]
-      by_cases hc : W.close (W.pyCheck (W.body u index) index) cur = true
+      by_cases hc : W.close (W.check (W.body u index) index) cur = true
       · simp [hc, toInterp, asOut]
       · simp only [hc, if_false]
-        have := hrec (W.pyCheck (W.body u index) index) hfin
+        have := hrec (W.check (W.body u index) index) hfin
         simpa [Nat.succ_ne_zero] using this
 
 /-! ### `solve` as a fold -/
